@@ -311,7 +311,7 @@ def gen_cases(ctx, mp_ok):
         mp_case = (ti % 4 == 0) if ctx.thorough else ti in (0, 6, 12, 19)      # cases also run with nprocs=2
         if mp_case:
             n = min(n, 60)
-        malformed = (ti % 7 == 3)
+        malformed = (ti % 7 == 3) and not force
         slon, slat = make_source_points(r, tgt, radius, n, malformed)
         if force and force.get("only"):
             far = [(-150.0, -40.0), (-140.0, -50.0), (-160.0, -30.0), (100.0, -60.0), (-120.0, -20.0), (-130.0, -45.0)]
@@ -327,7 +327,7 @@ def gen_cases(ctx, mp_ok):
         src = {"kind": "swath", "lons": slon, "lats": slat, "shape": shape}
         mode = "swath_to_area"
         t_out, s_out = dict(tgt), src
-        if ti % 6 == 5 and tgt["tag"] != "thin":
+        if ti % 6 == 5 and tgt["tag"] != "thin" and not force:
             # grid -> swath: the reduction applies to the TARGET points (valid_output_index)
             mode = "area_to_swath"
             t_out = {"kind": "swath", "lons": slon, "lats": slat, "shape": shape, "tag": tgt["tag"]}
@@ -371,7 +371,10 @@ def canon_info(a):
     nvalid = int(vii.sum())
     orig = np.flatnonzero(vii)
     tpos = np.flatnonzero(voi)
-    ia = a["ia"].reshape(a["ia"].shape[0], -1) if a["ia"].ndim else a["ia"].reshape(1, 1)
+    if a["ia"].size == 0:
+        ia = np.zeros((0, 1), dtype=np.int64)
+    else:
+        ia = a["ia"].reshape(a["ia"].shape[0], -1) if a["ia"].ndim else a["ia"].reshape(1, 1)
     da = a["da"].reshape(ia.shape)
     if ia.shape[0] != tpos.size:
         return None, "index_array has %d rows for %d valid outputs" % (ia.shape[0], tpos.size)
